@@ -2,7 +2,8 @@
 import desper
 
 # bits of the "ev" shape of a class
-EV_ADD, EV_REMOVE, EV_RENAMED, EV_PROBE, EV_FALSY, EV_EQ, EV_UNHASH, EV_INSTANCE = 1, 2, 4, 8, 16, 32, 64, 128
+EV_ADD, EV_REMOVE, EV_RENAMED, EV_PROBE, EV_FALSY, EV_EQ, EV_UNHASH, EV_INSTANCE, EV_LEAN = 1, 2, 4, 8, 16, 32, 64, 128, 256
+CALLBACKS = ('on_add', 'on_remove', 'probe', 'added', 'removed')
 
 
 class EqByMode:
@@ -50,7 +51,7 @@ class RecBase(EqByMode):
     def _mapped(self, event, method):
         # every class has all four methods; the decorator decides which one an event is mapped to - running
         # on_add on a class that maps the event to `added` is running the wrong method
-        return getattr(self, '__events__', {}).get(event, method) == method
+        return declared(self).get(event, method) == method
 
     def on_add(self, *a):
         self._rec('on_add' if self._mapped('on_add', 'on_add') else 'unmapped_method_on_add', a)
@@ -69,6 +70,40 @@ class RecBase(EqByMode):
 
     def __repr__(self):
         return '<%s#%d>' % (type(self).__name__, self.ix)
+
+
+class _Absent:
+    """Class attribute that makes a callback method of RecBase look undefined (hasattr False, getattr raises)."""
+    def __set_name__(self, owner, name):
+        self.name = name
+
+    def __get__(self, obj, owner=None):
+        raise AttributeError(self.name)
+
+
+def _resolve(cls, name):
+    for k in cls.__mro__:
+        if name in vars(k):
+            return vars(k)[name]
+    return None
+
+
+def declared(x):
+    """Event -> method mapping an instance (or class) DECLARES, computed from the generated spec alone - never read
+    back from what the library's decorator stored in __events__."""
+    if not isinstance(x, type):
+        own = x.__dict__.get('__events__') if hasattr(x, '__dict__') else None
+        if own is not None:
+            return own          # set by the generated __init__ (EV_INSTANCE), not by the library
+        x = type(x)
+    return getattr(x, '_declared', {})
+
+
+def declares_anything(x):
+    """Mirror of the EventHandler protocol (an __events__ attribute exists), from the spec alone."""
+    if not isinstance(x, type) and '__events__' in getattr(x, '__dict__', {}):
+        return True
+    return hasattr(x if isinstance(x, type) else type(x), '_declared')
 
 
 def add_class(classes, eff, c, root=RecBase, prefix='K', decorate=True, namespace=None):
@@ -95,6 +130,11 @@ def add_class(classes, eff, c, root=RecBase, prefix='K', decorate=True, namespac
         cls._eqmode = 2
     elif c.get('ev', 0) & EV_EQ:
         cls._eqmode = 1
+    if decorate and not (c.get('ev', 0) & EV_LEAN and not c.get('ev', 0) & EV_INSTANCE
+                         and not getattr(cls, '_instance_events', False)) and any(
+            isinstance(_resolve(cls, n), _Absent) for n in CALLBACKS):
+        for name in CALLBACKS:      # a full class below a lean one defines every callback again
+            setattr(cls, name, RecBase.__dict__[name])
     if decorate and c.get('ev', 0) & EV_INSTANCE:
         # the class declares nothing: every INSTANCE carries its own __events__ mapping (set in __init__), which is
         # all the EventHandler protocol asks for
@@ -110,6 +150,7 @@ def add_class(classes, eff, c, root=RecBase, prefix='K', decorate=True, namespac
         def __init__(self, _mapping=mapping):
             self.__events__ = dict(_mapping)
         cls.__init__ = __init__
+        cls._instance_events = True
     elif decorate:
         ev = c.get('ev', 0)
         names, maps = [], {}
@@ -125,6 +166,22 @@ def add_class(classes, eff, c, root=RecBase, prefix='K', decorate=True, namespac
                 names.append('on_remove')
         if ev & EV_PROBE:
             names.append('probe')
+        if names or maps:
+            # what the class declares = what its first ancestor (in lookup order) declares, extended and overridden
+            # by its own decoration; computed here, independently of the decorator
+            cls._declared = {**getattr(cls, '_declared', {}), **dict(zip(names, names)), **maps}
+        if ev & EV_LEAN and not getattr(cls, '_instance_events', False):
+            # a lean class defines only the callbacks it declares (as hand-written handler classes do): the other
+            # callback methods of the recorder root do not exist on it
+            used = set(getattr(cls, '_declared', {}).values())
+            for name in CALLBACKS:
+                if name not in used:
+                    d = _Absent()
+                    d.name = name
+                    setattr(cls, name, d)
+        for name in set(getattr(cls, '_declared', {}).values()):
+            if isinstance(_resolve(cls, name), _Absent):
+                setattr(cls, name, RecBase.__dict__[name])      # a declared callback always exists
         cls = desper.event_handler(*names, **maps)(cls)
     classes.append(cls)
     eff.append(list(keep))
